@@ -265,7 +265,7 @@ def stepModel (m : MSt) (line : String) : MSt × String :=
   | ["verbosity", n] =>
     if m.c.run.exit.isSome then (m, "dead") else
     let v := n.toInt?.getD 0
-    ({ m with c := { m.c with run := { m.c.run with st := { m.c.run.st with verbosity := v } } } }, "ok")
+    ({ m with c := setVerbosity m.c v }, "ok")
   | _ => (m, "bad-op")
 
 def specFiles (s : Spec.St) : String :=
